@@ -39,6 +39,7 @@ type fileSpec struct {
 	ID   int `json:"id"`
 	Pad  int `json:"pad"`            // length of Content
 	Kind int `json:"kind,omitempty"` // 0 = content only, 1 = with a line match, 2 = with a chunk match
+	Score float64 `json:"score,omitempty"`
 }
 
 type eventSpec struct {
@@ -51,7 +52,8 @@ type eventSpec struct {
 }
 
 type caseSpec struct {
-	Op     string      `json:"op"` // pipe | pipe-grpc | grpc | samp | chunk
+	Op     string      `json:"op"` // pipe | pipe-grpc | grpc | samp | chunk | coll
+	FlushAt int        `json:"flush_at,omitempty"` // coll: number of results sent before waiting for the timer; -1 = no timer
 	Events []eventSpec `json:"events,omitempty"`
 	Sizes  []int       `json:"sizes,omitempty"` // chunk op: value lengths of BytesValue items
 }
@@ -68,6 +70,9 @@ func mkFile(fs fileSpec) zoekt.FileMatch {
 		fm.ChunkMatches = []zoekt.ChunkMatch{{Content: []byte("a needle\nb"), ContentStart: zoekt.Location{LineNumber: 1, Column: 1}, Ranges: []zoekt.Range{{Start: zoekt.Location{ByteOffset: 2, LineNumber: 1, Column: 3}, End: zoekt.Location{ByteOffset: 8, LineNumber: 1, Column: 9}}}}}
 		fm.Branches = []string{"HEAD"}
 		fm.Score = 12.5
+	}
+	if fs.Score != 0 {
+		fm.Score = fs.Score
 	}
 	return fm
 }
@@ -309,6 +314,14 @@ func emit(w *gen.Writer, cs caseSpec, class string) {
 			Impl: showForwarded(got), Go: verdict, Key: key, Class: class,
 			Nontrivial: len(cs.Events) >= 2, Detail: detail,
 		})
+	case "coll":
+		got, k := runCollector(cs.Events, cs.FlushAt)
+		verdict, key := collOracle(cs.Events, got)
+		w.Emit(gen.Case{
+			In:   fmt.Sprintf("coll %s %s", k, showEventSpecs(cs.Events)),
+			Impl: showForwarded(got), Go: verdict, Key: key, Class: class + "-flush@" + bucket(k, len(cs.Events)),
+			Nontrivial: len(cs.Events) >= 2, Detail: detail,
+		})
 	case "chunk":
 		sizes, chunks := runChunker(cs.Sizes)
 		ids := make([]int, len(sizes))
@@ -411,6 +424,10 @@ func main() {
 	for i, n := 0, f.N(25, 300); i < n; i++ {
 		cs, class := genSeqCase(r, "pipe-grpc")
 		emit(w, cs, "grpc-"+class)
+	}
+	for i, n := 0, f.N(160, 3000); i < n; i++ {
+		cs, class := genCollCase(r, i%3 != 0)
+		emit(w, cs, class)
 	}
 	singleCounterCases(w)
 	runEndToEnd(w, r, f)
